@@ -330,7 +330,7 @@ theorem slotsFrom_start {d : List Byte} {sz i i' c : Nat} (h : c ≠ 0 → i = i
 theorem bufferSet_step {amb : List Nat} {s : State} {b : Nat} {x : Buf} {t : Traits} (gs : GoodS amb s) (hb : s.buf? b = some x)
     (xt : x.traits = some t) (pos : Nat) (bytes : List Byte) (hasSrc : Bool) (S : List Nat)
     (hS : hasSrc = true → ∀ j, j < bytes.length / t.size → slot bytes t.size j ∈ S)
-    (hSl : ∀ k ∈ S, (k ∈ amb ∨ k ∈ stored s) ∧ k ∉ x.toks) :
+    (hSl : s.next ≤ tokLimit → ∀ k ∈ S, (k ∈ amb ∨ k ∈ stored s) ∧ k ∉ x.toks) :
     match bufferSet s b (some t) pos bytes hasSrc with
     | .fault _ => False
     | .fail s' _ => s' = s ∨ (Step amb s s' ∧ Frame s s' b)
@@ -411,7 +411,7 @@ theorem bufferSet_step {amb : List Nat} {s : State} {b : Nat} {x : Buf} {t : Tra
     · rw [lg]; cases fatal <;> simp
     · intro t ht; rw [xtoks]; simp only [List.mem_append]; exact Or.inl (Or.inr ht)
     · intro k hk
-      have := hSl k hk
+      have := hSl (by rw [sd.next] at small; omega) k hk
       refine ⟨this.1, fun hg => this.2 ?_⟩
       rw [xtoks]; simp only [List.mem_append]; exact Or.inl (Or.inr hg)
     · cases fatal with
@@ -450,7 +450,7 @@ theorem bufferSet_step {amb : List Nat} {s : State} {b : Nat} {x : Buf} {t : Tra
       · simp only [Nat.zero_add]
         exact slotsFrom_eq_seqFrom (fun j h1 h2 => inn small j h1 h2)
     refine ⟨Delta.mk [] [] evs m S n' (by rw [lg]; simp) cr List.nodup_nil (fun t ht => by cases ht)
-      (fun k hk => ⟨(hSl k hk).1, by simp⟩) List.nodup_nil (fun t ht => by cases ht) ?_ ?_⟩
+      (fun k hk => ⟨(hSl (by rw [n'] at small; omega) k hk).1, by simp⟩) List.nodup_nil (fun t ht => by cases ht) ?_ ?_⟩
     · rw [x'toks, List.nodup_append]
       refine ⟨nd, seqFrom_nodup _ _, fun a ha c hc e => ?_⟩
       subst e
